@@ -4,6 +4,11 @@
     rule `c24-macro-expand`, an implementation of this `macro_rules!` definition (the definition is read from the repository on
     every run; the rule refuses — Undecided — when the matcher changes shape or the transcriber uses anything but the four
     metavariables and one-level repetition).
+  * `on_notification_handler` + `handle_cancel` (handlers/notification_handler.rs): one `dispatch_notification!` invocation, same rule
+  * the queueing path: `LspServer::{wait_for_initialization, run}` (server/lsp_server.rs), `ServerMessageProcessor::{can_process_during_init,
+    check_initialization_complete, process_message, process_pending_messages, handle_message}` (server/message_processor.rs); every OTHER
+    method of these two impls becomes a generated shim without contract (`_havoc`), so that a new method which touches the queue breaks
+    the callers' invariants (exit 1) instead of making the unit undecided
   * `ServerContext::{task, send, cancel, snapshot}` (context/mod.rs)
   * the `initialize` handshake: a slice of `run_ls` (server/mod.rs)
   * `ServerMessageProcessor::handle_message` (server/message_processor.rs): what an `Err` of the dispatcher would do
@@ -26,6 +31,8 @@ from vc.rules import rule
 
 LS = 'crates/emmylua_ls/src/'
 RH = LS + 'handlers/request_handler.rs'
+NH = LS + 'handlers/notification_handler.rs'
+LSRV = LS + 'server/lsp_server.rs'
 CTX = LS + 'context/mod.rs'
 SRV = LS + 'server/mod.rs'
 MP = LS + 'server/message_processor.rs'
@@ -46,161 +53,31 @@ def _norm(text, toks, a, b):
 
 
 # ---------------------------------------------------------------------------------------------
-# rule c24-macro-expand: an implementation of `macro_rules! dispatch_request`
+# rule c24-macro-expand: an implementation of the two dispatch macros' `macro_rules!` definitions (mrules.py)
 # ---------------------------------------------------------------------------------------------
-MATCHER = '$ request : expr , $ context : expr , { $ ( $ req_type : ty = > $ handler : expr ) , * $ ( , ) ? }'
+_ms = importlib.util.spec_from_file_location('c24_mrules', os.path.join(os.path.dirname(os.path.abspath(__file__)), 'mrules.py'))
+M = importlib.util.module_from_spec(_ms)
+_ms.loader.exec_module(M)
 
-
-def _split_top(text, toks, a, b, sep):
-    """split toks[a:b] at depth-0 occurrences of the token sequence `sep` (list of strings)"""
-    parts, cur, k = [], a, a
-    T = _T(text, toks)
-    while k < b:
-        t = T(k)
-        if t in ('(', '[', '{'):
-            k = L.match_close(text, toks, k) + 1
-            continue
-        if [T(k + j) for j in range(len(sep))] == sep and all(toks[k + j + 1][1] == toks[k + j][2] for j in range(len(sep) - 1)):
-            parts.append((cur, k))
-            k += len(sep)
-            cur = k
-            continue
-        k += 1
-    parts.append((cur, b))
-    return parts
-
-
-def parse_dispatch(text, name='dispatch_request'):
-    """-> dict(def_span, matcher_ok, transcriber (text span), invocations [(span, request, context, [(ty, handler)])])"""
-    toks = L.code_tokens(text)
-    T = _T(text, toks)
-    d = None
-    for i in range(len(toks) - 3):
-        if T(i) == 'macro_rules' and T(i + 1) == '!' and T(i + 2) == name and T(i + 3) == '{':
-            if d is not None:
-                raise Undecided('c24-macro-expand: macro %s is defined twice' % name)
-            d = i
-    if d is None:
-        raise Undecided('c24-macro-expand: no `macro_rules! %s` in the text' % name)
-    dc = L.match_close(text, toks, d + 3)
-    # exactly one rule: ( MATCHER ) => { TRANSCRIBER } [;]
-    k = d + 4
-    if T(k) != '(':
-        raise Undecided('c24-macro-expand: the macro rule does not start with a parenthesised matcher')
-    mc = L.match_close(text, toks, k)
-    if _norm(text, toks, k + 1, mc) != MATCHER:
-        raise Undecided('c24-macro-expand: the matcher of %s changed shape: %s' % (name, _norm(text, toks, k + 1, mc)))
-    if not (T(mc + 1) == '=' and T(mc + 2) == '>' and T(mc + 3) == '{'):
-        raise Undecided('c24-macro-expand: `=> {` expected after the matcher')
-    tc = L.match_close(text, toks, mc + 3)
-    rest = [T(j) for j in range(tc + 1, dc)]
-    if rest not in ([], [';']):
-        raise Undecided('c24-macro-expand: the macro has more than one rule')
-    res = {'def': (toks[d][1], toks[dc][2]), 'trans_toks': (mc + 4, tc), 'invocations': []}
-    # invocations `name ! ( a , b , { T => h , ... } ) ;`
-    for i in range(len(toks) - 2):
-        if T(i) == name and T(i + 1) == '!' and T(i + 2) == '(' and T(i - 1) != '!':
-            pc = L.match_close(text, toks, i + 2)
-            if T(pc + 1) != ';':
-                raise Undecided('c24-macro-expand: the invocation is not a statement `%s!(..);`' % name)
-            args = _split_top(text, toks, i + 3, pc, [','])
-            if len(args) != 3:
-                raise Undecided('c24-macro-expand: the invocation has %d arguments' % len(args))
-            simple = []
-            for a, b in args[:2]:
-                if b - a != 1 or toks[a][0] != 'ident':
-                    raise Undecided('c24-macro-expand: an `expr` argument is not a plain identifier (textual substitution would need grouping)')
-                simple.append(T(a))
-            a, b = args[2]
-            if T(a) != '{' or L.match_close(text, toks, a) != b - 1:
-                raise Undecided('c24-macro-expand: third argument is not a braced table')
-            arms = []
-            for x, y in _split_top(text, toks, a + 1, b - 1, [',']):
-                if x == y:
-                    continue                      # `$(,)?`: trailing comma
-                lr = _split_top(text, toks, x, y, ['=', '>'])
-                if len(lr) != 2 or lr[0][1] - lr[0][0] != 1 or lr[1][1] - lr[1][0] != 1 \
-                        or toks[lr[0][0]][0] != 'ident' or toks[lr[1][0]][0] != 'ident':
-                    raise Undecided('c24-macro-expand: a table entry is not `TypeName => handler_name`: %s' % _norm(text, toks, x, y))
-                arms.append((T(lr[0][0]), T(lr[1][0])))
-            res['invocations'].append(((toks[i][1], toks[pc + 1][2]), simple[0], simple[1], arms))
-    if not res['invocations']:
-        raise Undecided('c24-macro-expand: macro %s is never invoked' % name)
-    res['toks'] = toks
-    return res
-
-
-def _transcribe(text, toks, a, b, env, arms):
-    """macro_rules transcription of toks[a:b] (source text preserved between tokens). `env`: the non-repeating metavariables,
-    `arms`: list of dicts for the repeating ones (None inside a repetition)."""
-    T = _T(text, toks)
-    out = []
-    pos = toks[a][1] if a < b else 0
-    k = a
-    while k < b:
-        if T(k) == '$':
-            out.append(text[pos:toks[k][1]])
-            if T(k + 1) == '(':
-                if arms is None:
-                    raise Undecided('c24-macro-expand: nested repetition in the transcriber')
-                gc = L.match_close(text, toks, k + 1)
-                if T(gc + 1) in ('*', '+'):
-                    sep, after = '', gc + 2
-                elif T(gc + 2) in ('*', '+'):
-                    sep, after = T(gc + 1), gc + 3
-                else:
-                    raise Undecided('c24-macro-expand: `$( .. )` without a repetition operator')
-                used = {T(j + 1) for j in range(k + 2, gc) if T(j) == '$'}
-                if not (used & set(arms[0].keys() if arms else {'req_type', 'handler'})):
-                    raise Undecided('c24-macro-expand: a repetition that uses no repeating metavariable')
-                reps = []
-                for arm in arms:
-                    e2 = dict(env)
-                    e2.update(arm)
-                    reps.append(text[toks[k + 1][2]:toks[k + 2][1]] + _transcribe(text, toks, k + 2, gc, e2, None)
-                                + text[toks[gc - 1][2]:toks[gc][1]])
-                out.append(sep.join(reps))
-                pos = toks[after - 1][2]
-                k = after
-                continue
-            name = T(k + 1)
-            if toks[k + 1][0] != 'ident' or name not in env:
-                raise Undecided('c24-macro-expand: `$%s` in the transcriber is not a metavariable of the matcher at this depth' % name)
-            out.append(env[name])
-            pos = toks[k + 1][2]
-            k += 2
-            continue
-        k += 1
-    out.append(text[pos:toks[b - 1][2]] if b > a else '')
-    return ''.join(out)
+MATCHERS = {
+    'dispatch_request': '$ request : expr , $ context : expr , { $ ( $ req_type : ty = > $ handler : expr ) , * $ ( , ) ? }',
+    'dispatch_notification': '$ notification : expr , $ context : expr , { sync : { $ ( $ sync_notif : ty = > $ sync_handler : expr ) , * $ ( , ) ? } '
+                             'async : { $ ( $ async_notif : ty = > $ async_handler : expr ) , * $ ( , ) ? } }',
+}
 
 
 @rule('c24-macro-expand')
 def c24_macro_expand(text, name='dispatch_request', **_):
-    """`dispatch_request!(R, C, { T1 => h1, .., Tn => hn });` -> the transcription of the macro's single rule, computed from the
-    `macro_rules!` definition in the text (the repository's): `$request` := R, `$context` := C, every `$( .. )*` group repeated once per
-    table entry with `$req_type` := Ti, `$handler` := hi; the definition itself is then removed. This is macro_rules semantics for the
-    subset used here: ONE rule whose matcher is literally `($request:expr, $context:expr, { $($req_type:ty => $handler:expr),* $(,)? })`
-    (otherwise Undecided), fragments that are single identifiers (an `expr` fragment that is one identifier needs no grouping), one level
-    of repetition. Hygiene: macro-local `let`/closure bindings cannot capture call-site identifiers; the rule checks that no
-    identifier of the transcriber equals a substituted `expr` identifier, so textual substitution and hygienic expansion coincide.
-    `return` inside the expansion returns from the invoking fn (a macro is not a fn). The statement `m!(..);` becomes `EXPANSION;`."""
-    p = parse_dispatch(text, name)
-    toks = p['toks']
-    T = _T(text, toks)
-    a, b = p['trans_toks']
-    body_idents = {T(k) for k in range(a, b) if toks[k][0] == 'ident' and T(k - 1) != '$'}
-    edits = [(p['def'][0], p['def'][1], '')]
-    for span, req, ctx, arms in p['invocations']:
-        clash = body_idents & ({req, ctx} | {h for _, h in arms})
-        if clash:
-            raise Undecided('c24-macro-expand: transcriber identifier(s) %s equal a substituted expr fragment (hygiene)' % sorted(clash))
-        env = {'request': req, 'context': ctx}
-        exp = _transcribe(text, toks, a, b, env, [{'req_type': t, 'handler': h} for t, h in arms])
-        edits.append((span[0], span[1], exp.strip() + ';'))
-    for s, e, new in sorted(edits, reverse=True):
-        text = text[:s] + new + text[e:]
-    return text, len(p['invocations'])
+    """`m!(ARGS);` -> the transcription of the macro's single rule, computed from the `macro_rules! m` definition in the text (the
+    repository's) by mrules.py: the arguments are matched against the matcher (literal tokens, `{..}` groups, `$x:expr` / `$x:ty`
+    fragments, `$( .. ),*` and `$(,)?` repetitions), the transcriber is copied with every `$x` replaced by its fragment and every
+    `$( .. )*` group repeated once per binding of the repetition whose metavariables it uses; the definition itself is then removed.
+    This is macro_rules semantics for the subset used here: ONE rule whose matcher is literally the one recorded in MATCHERS (otherwise
+    Undecided), fragments that are single identifiers (such an `expr` / `ty` fragment needs no grouping), one level of repetition.
+    Hygiene: macro-local `let` / closure bindings cannot capture call-site identifiers; the rule checks that no identifier of the
+    transcriber equals a substituted `expr` identifier, so textual substitution and hygienic expansion coincide. `return` / `?` inside
+    the expansion leave the invoking fn (a macro is not a fn). The statement `m!(..);` becomes `EXPANSION;`."""
+    return M.expand(text, name, MATCHERS[name])
 
 
 # ---------------------------------------------------------------------------------------------
@@ -208,7 +85,7 @@ def c24_macro_expand(text, name='dispatch_request', **_):
 # ---------------------------------------------------------------------------------------------
 @rule('c24-match-const-chain')
 def match_const_chain(text, **_):
-    """`match E { P1 => B1 .. Pn => Bn  x => B }` with path patterns Pi naming constants (`<T>::METHOD`), block bodies, no guards and
+    """`match E { P1 => B1 .. Pn => Bn  x => B }` with path patterns Pi naming constants (`<T>::METHOD`, `T::METHOD`), block bodies, no guards and
     a final identifier pattern -> `{ let x = E; if x == P1 B1 else if x == P2 B2 .. else B };`. Rust reference, path patterns: a
     constant pattern matches when the scrutinee is (structurally) equal to the constant's value; for `&str` both that and `==` are
     string equality; arms are tried in order, the first match wins; the identifier pattern binds the scrutinee. `x` is bound in front
@@ -226,8 +103,8 @@ def match_const_chain(text, **_):
                 j = L.match_close(text, toks, j)
             j += 1
         bo, bc = j, L.match_close(text, toks, j)
-        if T(bo + 1) != '<':
-            continue                      # another match
+        if not ((T(bo + 1) == '<' and T(bo + 4) == ':') or (toks[bo + 1][0] == 'ident' and T(bo + 2) == ':' and T(bo + 3) == ':')):
+            continue                      # another match: its first pattern is not a path to a constant
         scrut = text[toks[i + 1][1]:toks[bo - 1][2]]
         arms = []
         k = bo + 1
@@ -253,7 +130,7 @@ def match_const_chain(text, **_):
         chain = []
         for (p0, p1), (b0, b1) in arms[:-1]:
             pt = _norm(text, toks, p0, p1)
-            if not re.fullmatch(r'< \w+ > : : [A-Z_]+', pt):
+            if not re.fullmatch(r'(?:< \w+ >|\w+) : : [A-Z_]+', pt):
                 raise Undecided('c24-match-const-chain: pattern `%s` is not an associated constant' % pt)
             if any(toks[q][0] == 'ident' and T(q) == x for q in range(b0, b1)):
                 raise Undecided('c24-match-const-chain: `%s` occurs in an earlier arm' % x)
@@ -359,6 +236,56 @@ def c24_ghost_param(text, **_):
     return text[:a + 1] + new + text[b - 1:], 1
 
 
+@rule('c24-matches-str-or')
+def c24_matches_str_or(text, **_):
+    """`matches!(E, "a" | "b" | ..)` with string-literal alternatives -> `{ let vx_m = E; vx_m == "a" || vx_m == "b" .. }` (std: `matches!` is
+    `match E { P => true, _ => false }`; a string literal pattern matches a `&str` scrutinee exactly when the strings are equal)."""
+    n = 0
+    while True:
+        toks = L.code_tokens(text)
+        T = _T(text, toks)
+        hit = None
+        for i in range(len(toks) - 2):
+            if T(i) == 'matches' and T(i + 1) == '!' and T(i + 2) == '(':
+                c = L.match_close(text, toks, i + 2)
+                k = i + 3
+                while k < c and T(k) != ',':
+                    if T(k) in ('(', '[', '{'):
+                        k = L.match_close(text, toks, k)
+                    k += 1
+                pats = [j for j in range(k + 1, c) if T(j) != '|']
+                if k >= c or not pats or any(toks[j][0] != 'str' for j in pats):
+                    raise Undecided('c24-matches-str-or: not `matches!(E, "a" | "b")`')
+                e = text[toks[i + 3][1]:toks[k - 1][2]]
+                hit = (toks[i][1], toks[c][2], '{ let vx_m = %s; %s }' % (e, ' || '.join('vx_m == %s' % T(j) for j in pats)))
+                break
+        if not hit:
+            break
+        text = text[:hit[0]] + hit[2] + text[hit[1]:]
+        n += 1
+    return text, n
+
+
+@rule('c24-mut-self-local')
+def c24_mut_self_local(text, **_):
+    """`fn f(mut self, ..) { BODY }` -> `fn f(self, ..) { let mut vx_self = self; BODY[self := vx_self] }`: a `mut` by-value parameter is a
+    mutable local initialised with the argument; naming that local differently changes nothing. (Verus: `mut self` is not supported.)"""
+    sh = X.fn_shape(text)
+    toks = L.code_tokens(text)
+    T = _T(text, toks)
+    idx = [i for i in range(len(toks)) if toks[i][0] == 'ident' and T(i) == 'self']
+    first = next((i for i in idx if sh.params[0] <= toks[i][1] < sh.params[1]), None)
+    if first is None or T(first - 1) != 'mut' or T(first - 2) == '&':
+        return text, 0
+    edits = [(toks[first - 1][1], toks[first][2], 'self'), (sh.body_open + 1, sh.body_open + 1, '\n        let mut vx_self = self;')]
+    for i in idx:
+        if toks[i][1] > sh.body_open:
+            edits.append((toks[i][1], toks[i][2], 'vx_self'))
+    for a, b, new in sorted(edits, reverse=True):
+        text = text[:a] + new + text[b:]
+    return text, 1
+
+
 @rule('c24-json-opaque')
 def c24_json_opaque(text, **_):
     """`serde_json::json!({ .. })` -> `vx_json_value()`: the VALUE of the initialize result (capabilities, server name and version) is
@@ -385,7 +312,7 @@ def _method_strings(names):
             src = open(f, encoding='utf-8').read()
         except OSError:
             continue
-        for m in re.finditer(r'impl\s+(?:\w+::)*(?:Request|LspRequest)\s+for\s+(\w+)\s*\{[^{}]*?const\s+METHOD\s*:\s*&\'static\s+str\s*=\s*("[^"\\]*")\s*;', src):
+        for m in re.finditer(r'impl\s+(?:\w+::)*(?:Request|LspRequest|Notification|LspNotification)\s+for\s+(\w+)\s*\{[^{}]*?const\s+METHOD\s*:\s*&\'static\s+str\s*=\s*("[^"\\]*")\s*;', src):
             if m.group(1) in names:
                 if found.get(m.group(1), m.group(2)) != m.group(2):
                     raise Undecided('two METHOD strings for %s' % m.group(1))
@@ -402,17 +329,31 @@ def _load():
     sh = X.fn_shape(fn.raw)
     head = fn.raw[:sh.sig_end]
     body = fn.raw[sh.body_open + 1:sh.body_close]
-    p = parse_dispatch(fn.raw + '\n' + X.find_item(REPO, {'file': RH, 'kind': 'macro_rules', 'name': '!'}).raw)
-    if len(p['invocations']) != 1:
-        raise Undecided('on_request_handler invokes dispatch_request! %d times' % len(p['invocations']))
-    arms = p['invocations'][0][3]
+    _, reps = M.table(fn.raw + '\n' + X.find_item(REPO, {'file': RH, 'kind': 'macro_rules', 'name': '!'}).raw, 'dispatch_request')
+    arms = [(arm['req_type'], arm['handler']) for arm in reps[frozenset(('req_type', 'handler'))]]
     if len({t for t, _ in arms}) != len(arms) or len({h for _, h in arms}) != len(arms):
         raise Undecided('a request type or a handler occurs twice in the routing table')
     return head, body, arms
 
 
 _HEAD, _BODY, ARMS = _load()
-_METHODS = _method_strings([t for t, _ in ARMS])
+
+
+def _load_notifications():
+    fn = X.find_item(REPO, {'file': NH, 'kind': 'fn', 'name': 'on_notification_handler'})
+    sh = X.fn_shape(fn.raw)
+    mac = X.find_item(REPO, {'file': NH, 'kind': 'macro_rules', 'name': '!'}).raw
+    _, reps = M.table(fn.raw + '\n' + mac, 'dispatch_notification')
+    sync = [(a['sync_notif'], a['sync_handler']) for a in reps.get(frozenset(('sync_notif', 'sync_handler')), [])]
+    asyn = [(a['async_notif'], a['async_handler']) for a in reps.get(frozenset(('async_notif', 'async_handler')), [])]
+    both = sync + asyn
+    if len({t for t, _ in both}) != len(both) or len({h for _, h in both}) != len(both) or 'Cancel' in {t for t, _ in both}:
+        raise Undecided('a notification type or a handler occurs twice in the notification table')
+    return fn.raw[:sh.sig_end], fn.raw[sh.body_open + 1:sh.body_close], sync, asyn
+
+
+_NHEAD, _NBODY, NSYNC, NASYNC = _load_notifications()
+_METHODS = _method_strings([t for t, _ in ARMS] + [t for t, _ in NSYNC + NASYNC] + ['Cancel'])
 
 
 def _generated():
@@ -425,6 +366,14 @@ def _generated():
         out.append('#[verifier::external_body] pub struct R_%s { _p: () }' % t)
         out.append('impl LspRequest for %s { type Params = P_%s; type Result = R_%s; const METHOD: &\'static str = %s; }' % (t, t, t, _METHODS[t]))
         out.append('#[verifier::external_body] pub fn %s(context: ServerContextSnapshot, params: P_%s, cancel_token: CancellationToken) -> R_%s { unimplemented!() }' % (h, t, t))
+    out.append('// ---- the notification table of on_notification_handler (%d sync, %d async entries) + Cancel ----' % (len(NSYNC), len(NASYNC)))
+    out.append('pub struct Cancel;')
+    out.append('impl LspNotification for Cancel { type Params = CancelParams; const METHOD: &\'static str = %s; }' % _METHODS['Cancel'])
+    for t, h in NSYNC + NASYNC:
+        out.append('pub struct %s;' % t)
+        out.append('#[verifier::external_body] pub struct NP_%s { _p: () }' % t)
+        out.append('impl LspNotification for %s { type Params = NP_%s; const METHOD: &\'static str = %s; }' % (t, t, _METHODS[t]))
+        out.append('#[verifier::external_body] pub fn %s(context: ServerContextSnapshot, params: NP_%s) -> Option<()> { unimplemented!() }' % (h, t))
     out.append('')
     out.append('/// where the routing table sends a request: the FIRST entry whose METHOD is the request\'s method, and whether the params')
     out.append('/// deserialize as that entry\'s parameter type; Unknown when no entry matches ("registered methods" = the table)')
@@ -441,7 +390,13 @@ def _template():
         t = f.read()
     if t.count('//@@GENERATED routing-table') != 1:
         raise Undecided('template.rs: marker for the generated routing table lost')
-    return t.replace('//@@GENERATED routing-table', _generated())
+    t = t.replace('//@@GENERATED routing-table', _generated())
+    for marker, file, impl in (('//@@GENERATED havoc ServerMessageProcessor', MP, 'ServerMessageProcessor'), ('//@@GENERATED havoc LspServer', LSRV, 'LspServer')):
+        if t.count(marker) != 1:
+            raise Undecided('template.rs: marker `%s` lost' % marker)
+        known = {k.split('::')[1] for k in UNIT['items'] if k.startswith(impl + '::')}
+        t = t.replace(marker, _havoc(file, impl, known))
+    return t
 
 
 # ---------------------------------------------------------------------------------------------
@@ -556,16 +511,253 @@ HANDLE_MESSAGE = {
               'c24-ghost-param', 'c24-error-type-opaque'],
     'attrs': SPIN,
     'ret': 'r',
+    'body_first': '// ghost: the log of handle_message calls (specification only)\nproof { st.handled@ = st.handled@.push(msg); }',
     'requires': 'ctx_wf(&*old(server_context), &*old(st))',
     'ensures': '''
+            HANDLED_CLAUSE, same_ids_but_logs(&*old(st), &*final(st)), ctx_wf(&*final(server_context), &*final(st)),
             // a request other than `shutdown`: the main loop goes on (`run` leaves its loop on Ok(true) and ends the server with `?` on Err)
             (match msg { Message::Request(req) => req.method@ != "shutdown"@ ==> (r matches Ok(stop) && !stop), _ => true }) /*@C24.loop.keeps-serving*/,
             // ... and it is answered as the dispatcher answers it
             (match msg { Message::Request(req) => req.method@ != "shutdown"@ ==> answered(req, &*old(st), &*final(st)), _ => true }) /*@C24.loop.request-answered-once*/,
+            // a notification never stops the loop
+            (msg is Notification ==> r == Ok::<bool, BoxedError>(false)) /*@C24.loop.notification-keeps-serving*/,
             // `shutdown`: its one response (sent by handle_shutdown), then the server stops, as requested
             (match msg { Message::Request(req) => req.method@ == "shutdown"@ ==> one_response(&*old(st), &*final(st), req.id) && !(r matches Ok(false)),
                          _ => true }) /*@C24.loop.shutdown-answered-once*/''',
 }
+
+NOTIFY = {
+    # same construction as DISPATCH: host = the macro definition, head / tail = signature and body of on_notification_handler
+    'src': {'kind': 'slice', 'name': 'on_notification_handler', 'in': {'file': NH, 'kind': 'macro_rules', 'name': '!'},
+            'from': r'\Amacro_rules!\s*dispatch_notification\b', 'to': r'\}\s*\Z', 'head': _NHEAD, 'tail': _NBODY},
+    'rules': [('c24-macro-expand', {'name': 'dispatch_notification'}), 'c24-match-const-chain',
+              'async-seq-fn', 'async-seq-await', ('async-seq-spawn', {'optional': True}), 'c24-no-async-left',
+              ('c24-shared-state', {'callees': ('handle_cancel',), 'calls': (('server_context', 'send'), ('server_context', 'task')), 'optional': True}),
+              'c24-ghost-param', 'c24-error-type-opaque', ('c24-log-drop', {'optional': True})],
+    'attrs': SPIN,
+    'ret': 'r',
+    'requires': 'ctx_wf(&*old(server_context), &*old(st))',
+    'ensures': '''
+            // EVERY notification — any method, any params, malformed or absent — leaves the main loop running: an Err would propagate
+            // through handle_message / process_message / run and end the server, so that no later request is answered
+            r is Ok /*@C24.notification.keeps-serving*/,
+            // the notification dispatcher hands no response to the connection (handlers are opaque: see trusted) and forgets no token
+            final(st).sent == old(st).sent /*@C24.notification.sends-no-response*/,
+            final(st).cancellations == old(st).cancellations /*@C24.notification.keeps-cancellation-entries*/,
+            same_ids(&*old(st), &*final(st)), ctx_wf(&*final(server_context), &*final(st))''',
+}
+
+HANDLE_CANCEL = {
+    'src': {'file': NH, 'kind': 'fn', 'name': 'handle_cancel'},
+    'rules': ['async-seq-fn', ('async-seq-await', {'count': 1}), 'c24-no-async-left',
+              ('c24-shared-state', {'calls': (('server_context', 'cancel'),)}), 'c24-ghost-param'],
+    'requires': 'ctx_wf(&*old(server_context), &*old(st))',
+    'ensures': '''
+            final(st).sent == old(st).sent /*@C24.cancel.sends-nothing*/,
+            final(st).cancellations == old(st).cancellations, same_ids(&*old(st), &*final(st)), ctx_wf(&*final(server_context), &*final(st))''',
+}
+
+HANDLED = 'final(st).handled@ == old(st).handled@.push(msg) && final(st).recv == old(st).recv'
+
+CAN_PROCESS = {
+    'src': {'file': MP, 'kind': 'fn', 'impl': 'ServerMessageProcessor', 'name': 'can_process_during_init'},
+    'rules': ['c24-matches-str-or'],
+    'ret': 'r',
+    'ensures': """
+            // what may be handled while the workspace is still loading: client responses, `$/cancelRequest`, `initialized`; every REQUEST waits
+            r == allowed_during_init(*msg) /*@C24.pending.requests-are-deferred*/""",
+}
+
+CHECK_INIT = {
+    'src': {'file': MP, 'kind': 'fn', 'impl': 'ServerMessageProcessor', 'name': 'check_initialization_complete'},
+    'rules': ['c24-error-type-opaque'],
+    'ret': 'r',
+    'ensures': 'final(self).pending_messages == old(self).pending_messages /*@C24.pending.queue-untouched*/',
+}
+
+PROCESS_MESSAGE = {
+    'src': {'file': MP, 'kind': 'fn', 'impl': 'ServerMessageProcessor', 'name': 'process_message'},
+    'rules': ['async-seq-fn', ('async-seq-await', {'count': 1}), 'c24-no-async-left',
+              ('c24-shared-state', {'calls': (('self', 'handle_message'),)}), 'c24-ghost-param', 'c24-error-type-opaque'],
+    'ret': 'r',
+    'requires': 'ctx_wf(&*old(server_context), &*old(st))',
+    'ensures': """
+            %s /*@C24.loop.message-handled-once*/,
+            final(self).pending_messages == old(self).pending_messages, same_ids_but_logs(&*old(st), &*final(st)),
+            ctx_wf(&*final(server_context), &*final(st)),
+            (msg is Notification ==> r == Ok::<bool, BoxedError>(false)) /*@C24.loop.notification-keeps-serving*/,
+            (match msg { Message::Request(req) => req.method@ != "shutdown"@ ==> (r matches Ok(stop) && !stop), _ => true }) /*@C24.loop.keeps-serving*/""" % HANDLED,
+}
+
+PROCESS_PENDING = {
+    'src': {'file': MP, 'kind': 'fn', 'impl': 'ServerMessageProcessor', 'name': 'process_pending_messages'},
+    'rules': ['async-seq-fn', ('async-seq-await', {'count': 1}), 'c24-no-async-left', 'c24-mem-take',
+              ('c24-shared-state', {'calls': (('self', 'handle_message'),)}), 'c24-ghost-param', 'c24-error-type-opaque'],
+    'attrs': SPIN + '\n#[verifier::loop_isolation(false)]',
+    'ret': 'r',
+    'requires': 'ctx_wf(&*old(server_context), &*old(st))',
+    'ensures': """
+            // every message queued during initialization is handed to handle_message exactly once, in queue order, nothing else is
+            r == Ok::<bool, BoxedError>(false) ==> final(st).handled@ == old(st).handled@ + old(self).pending_messages@ /*@C24.pending.every-queued-request-processed-once*/,
+            // (shutdown among them / an Err: a prefix of the queue, in order)
+            exists|k: int| 0 <= k <= old(self).pending_messages@.len()
+                && final(st).handled@ == old(st).handled@ + #[trigger] old(self).pending_messages@.take(k) /*@C24.pending.processed-in-order*/,
+            final(self).pending_messages@.len() == 0, final(st).recv == old(st).recv, same_ids_but_logs(&*old(st), &*final(st)),
+            ctx_wf(&*final(server_context), &*final(st))""",
+    'body_first': 'let ghost h0 = st.handled@;',
+    'iter_names': {0: 'it'},
+    'loops': {0: """invariant
+                ctx_wf(&*server_context, &*st), st.recv == old(st).recv, same_ids_but_logs(&*old(st), &*st),
+                it.seq() =~= messages@, self.pending_messages@.len() == 0,
+                messages@ == old(self).pending_messages@ /*@C24.pending.every-queued-request-processed-once.inv-whole-queue*/,
+                st.handled@ == h0 + messages@.take(it.index@ as int) /*@C24.pending.every-queued-request-processed-once.inv*/,"""},
+    'proof': [
+        (r'if self\.handle_message\(msg, connection, server_context, st\)\? \{', 'before', """
+                proof {
+                    assert(messages@.take(it.index@ + 1) =~= messages@.take(it.index@ as int).push(msg));
+                    assert(h0 + messages@.take(it.index@ + 1) =~= (h0 + messages@.take(it.index@ as int)).push(msg));
+                }"""),
+        (r'Ok\(false\)\s*\}\s*$', 'before', 'proof { assert(messages@.take(messages@.len() as int) =~= messages@); }'),
+    ],
+}
+
+WAIT_INIT = {
+    'src': {'file': LSRV, 'kind': 'fn', 'impl': 'LspServer', 'name': 'wait_for_initialization'},
+    'rules': ['async-seq-fn', ('async-seq-await', {'count': 2}), 'c24-no-async-left',
+              ('c24-shared-state', {'calls': (('connection', 'recv'), ('processor', 'handle_message'))}), 'c24-ghost-param', 'c24-error-type-opaque'],
+    'attrs': SPIN + '\n#[verifier::exec_allows_no_decreases_clause]\n#[verifier::loop_isolation(false)]',
+    'ret': 'r',
+    'requires': 'ctx_wf(&old(self).server_context, &*old(st))',
+    'ensures': """
+            // Whatever arrives while the workspace loads (the messages received during the wait, in order): every message that must wait —
+            // every REQUEST in particular — is appended to the queue exactly once, in arrival order, and nothing is ever removed from the
+            // queue, whatever notifications (cancel included) arrive meanwhile; the others are handled at once, each once
+            final(self).processor.pending_messages@ == old(self).processor.pending_messages@
+                + deferred(new_recv(&*old(st), &*final(st))) /*@C24.pending.every-deferred-message-queued-once*/,
+            final(st).handled@ == old(st).handled@ + immediate(new_recv(&*old(st), &*final(st))) /*@C24.pending.allowed-messages-handled-once*/,
+            old(st).recv@.is_prefix_of(final(st).recv@), same_ids_but_logs(&*old(st), &*final(st)),
+            ctx_wf(&final(self).server_context, &*final(st))""",
+    'body_first': 'let ghost p0 = self.processor.pending_messages@; let ghost h0 = st.handled@; let ghost r0 = st.recv@.len() as int;\n'
+                  'proof { assert(st.recv@.skip(r0) =~= Seq::<Message>::empty()); assert(p0 + Seq::<Message>::empty() =~= p0); assert(h0 + Seq::<Message>::empty() =~= h0); }',
+    'loops': {0: """invariant
+                ctx_wf(&self.server_context, &*st), same_ids_but_logs(&*old(st), &*st),
+                r0 == old(st).recv@.len(), r0 <= st.recv@.len(), old(st).recv@.is_prefix_of(st.recv@),
+                self.processor.pending_messages@ == p0 + deferred(st.recv@.skip(r0)) /*@C24.pending.every-deferred-message-queued-once.inv*/,
+                st.handled@ == h0 + immediate(st.recv@.skip(r0)) /*@C24.pending.allowed-messages-handled-once.inv*/,"""},
+    'proof': [
+        (r'match tokio::time::timeout\(', 'before', 'let ghost recv_pre = st.recv@;'),
+        (r'Ok\(Some\(msg\)\) => \{', 'after', """
+                    proof {
+                        assert(st.recv@ == recv_pre.push(msg));
+                        assert(st.recv@.skip(r0) =~= recv_pre.skip(r0).push(msg));
+                        lemma_split_push(recv_pre.skip(r0), msg);
+                        assert(p0 + deferred(recv_pre.skip(r0)).push(msg) =~= (p0 + deferred(recv_pre.skip(r0))).push(msg));
+                        assert(h0 + immediate(recv_pre.skip(r0)).push(msg) =~= (h0 + immediate(recv_pre.skip(r0))).push(msg));
+                    }"""),
+    ],
+}
+
+RUN = {
+    'src': {'file': LSRV, 'kind': 'fn', 'impl': 'LspServer', 'name': 'run'},
+    'rules': ['c24-mut-self-local', 'async-seq-fn', ('async-seq-await', {'count': 6}), 'c24-no-async-left',
+              ('c24-shared-state', {'calls': (('vx_self', 'wait_for_initialization'), ('processor', 'process_pending_messages'), ('connection', 'recv'),
+                                              ('processor', 'process_message'))}), 'c24-ghost-param', 'c24-error-type-opaque'],
+    'attrs': SPIN + '\n#[verifier::exec_allows_no_decreases_clause]\n#[verifier::loop_isolation(false)]',
+    'ret': 'r',
+    'requires': 'ctx_wf(&self.server_context, &*old(st)), self.processor.pending_messages@.len() == 0',
+    'ensures': """
+            // The whole main loop, when it ends regularly (client gone / shutdown; an Err ends the server). With R = everything received, of
+            // which the first n1 messages arrived while the workspace was loading: the messages handed to handle_message are, in this order,
+            // the ones of R[..n1] that are allowed during initialization, then the ones of R[..n1] that had to wait (every request among
+            // them), then R[n1..] — every message once, no message dropped or repeated, requests in arrival order — or, when a shutdown stops
+            // the server, a prefix of that
+            r is Ok ==> exists|n1: int| 0 <= n1 <= new_recv(&*old(st), &*final(st)).len()
+                && final(st).handled@.skip(old(st).handled@.len() as int).is_prefix_of(
+                    #[trigger] handling_order(new_recv(&*old(st), &*final(st)), n1)) /*@C24.pending.every-received-message-handled-once-in-order*/""",
+    'body_first': 'let ghost h_base = st.handled@; let ghost q0 = st.recv@.len() as int;',
+    'loops': {0: """invariant
+                ctx_wf(&vx_self.server_context, &*st), same_ids_but_logs(&*old(st), &*st),
+                q0 <= st.recv@.len(), 0 <= n1 <= st.recv@.skip(q0).len(), st.recv@.skip(q0).take(n1) == r1,
+                st.handled@ == h_base + (immediate(r1) + deferred(r1) + st.recv@.skip(q0).skip(n1)) /*@C24.pending.every-received-message-handled-once-in-order.inv*/,"""},
+    'proof': [
+        (r'vx_self\.wait_for_initialization\(st\)\?;', 'after', """
+        let ghost r1 = st.recv@.skip(q0); let ghost n1 = r1.len() as int; let ghost h1 = st.handled@;
+        proof {
+            assert(vx_self.processor.pending_messages@ =~= deferred(r1));
+            assert(h1 == h_base + immediate(r1));
+            assert(r1.take(n1) =~= r1); assert(r1.skip(n1) =~= Seq::<Message>::empty());
+        }"""),
+        (r'vx_self\.server_context\.close\(\);\s*return Ok\(\(\)\);', 'before', """
+            proof {
+                // a shutdown among the queued messages: a prefix of the queue was handled
+                let k = choose|k: int| 0 <= k <= deferred(r1).len() && st.handled@ == h1 + #[trigger] deferred(r1).take(k);
+                assert(st.recv@.skip(q0) == r1);
+                lemma_prefix_concat(immediate(r1), deferred(r1), k) /*@C24.pending.every-received-message-handled-once-in-order.queue-prefix-handed-over*/;
+                assert((h_base + immediate(r1) + deferred(r1).take(k)).skip(h_base.len() as int) =~= immediate(r1) + deferred(r1).take(k));
+                assert(immediate(r1) + deferred(r1) + Seq::<Message>::empty() =~= immediate(r1) + deferred(r1));
+                assert(handling_order(r1, n1) =~= immediate(r1) + deferred(r1));
+                assert(st.handled@.skip(h_base.len() as int).is_prefix_of(handling_order(new_recv(&*old(st), &*st), n1)));
+            }"""),
+        (r'while let Some\(msg\) = vx_self\.connection\.recv\(st\)', 'before', """
+        proof {
+            assert(st.recv@.skip(q0) == r1);
+            assert(st.handled@ == h1 + deferred(r1)) /*@C24.pending.every-received-message-handled-once-in-order.whole-queue-handed-over*/;
+            assert(h_base + immediate(r1) + deferred(r1) =~= h_base + (immediate(r1) + deferred(r1) + r1.skip(n1)));
+        }"""),
+        (r'while let Some\(msg\) = vx_self\.connection\.recv\(st\)\s*\{', 'after', """
+            proof {
+                // `pre`: the receive log at the loop head (the invariant speaks about it), named through recv's postcondition
+                let pre = choose|o: Seq<Message>| st.recv@ == #[trigger] o.push(msg) && q0 <= o.len() && n1 <= o.skip(q0).len()
+                    && o.skip(q0).take(n1) == r1 && st.handled@ == h_base + (immediate(r1) + deferred(r1) + o.skip(q0).skip(n1));
+                assert(st.recv@ == pre.push(msg));
+                assert(st.recv@.skip(q0) =~= pre.skip(q0).push(msg));
+                assert(st.recv@.skip(q0).take(n1) =~= pre.skip(q0).take(n1));
+                assert(st.recv@.skip(q0).skip(n1) =~= pre.skip(q0).skip(n1).push(msg));
+                assert((h_base + (immediate(r1) + deferred(r1) + pre.skip(q0).skip(n1))).push(msg)
+                    =~= h_base + (immediate(r1) + deferred(r1) + pre.skip(q0).skip(n1).push(msg)));
+            }"""),
+        (r'vx_self\.server_context\.close\(\);\s*Ok\(\(\)\)\s*\}\s*$', 'before', """
+        proof {
+            let rr = st.recv@.skip(q0);
+            assert((h_base + (immediate(r1) + deferred(r1) + rr.skip(n1))).skip(h_base.len() as int) =~= immediate(r1) + deferred(r1) + rr.skip(n1));
+            assert(handling_order(rr, n1) == immediate(r1) + deferred(r1) + rr.skip(n1));
+            let x = handling_order(rr, n1);
+            assert(x.take(x.len() as int) =~= x);
+            assert(st.handled@.skip(h_base.len() as int) =~= x);
+            assert(st.handled@.skip(h_base.len() as int).is_prefix_of(handling_order(new_recv(&*old(st), &*st), n1)));
+        }"""),
+    ],
+}
+
+
+def _havoc(file, impl, known):
+    """methods of `impl` that are NOT under contract in this unit: each becomes an opaque shim generated from its signature (any effect on
+    what it can reach through its parameters, nothing on the ghost state) — a NEW method that touches the queue therefore breaks the
+    callers' invariants instead of making the unit undecided"""
+    src = X.read_source(REPO, file)
+    toks = L.code_tokens(src)
+    out = []
+    for a, b in X._top_level_items(src, toks, 0, len(toks)):
+        a2 = X._strip_attrs(src, toks, a, b)
+        if a2 >= b: continue
+        kind, name, kidx = X._header(src, toks, a2, b)
+        if kind != 'impl' or name != impl: continue
+        ob = next(j for j in range(kidx, b) if L.tok_text(src, toks[j]) == '{')
+        for x, y in X._top_level_items(src, toks, ob + 1, L.match_close(src, toks, ob)):
+            x2 = X._strip_attrs(src, toks, x, y)
+            if x2 >= y: continue
+            k2, fname, _ = X._header(src, toks, x2, y)
+            if k2 != 'fn' or fname in known: continue
+            raw = src[toks[x2][1]:toks[y - 1][2]]
+            sig = raw[:X.fn_shape(raw).sig_end]
+            sig = re.sub(r'^pub(\([^)]*\))?\s+', '', sig)
+            sig = re.sub(r'\basync\s+fn\b', 'fn', sig)
+            sig = re.sub(r'(?<![&\w])mut\s+(?=\w+\s*[:,)])', '', sig)      # `mut x: T` / `mut self`: the binding mode is the body's business
+            sig = re.sub(r'Box<dyn Error \+ (?:Sync \+ Send|Send \+ Sync)>', 'BoxedError', sig)
+            out.append('    /// NOT under contract (generated from the signature in %s): may do anything to what its parameters reach\n'
+                       '    #[verifier::external_body]\n    pub %s { unimplemented!() }' % (file, sig))
+    return '\n'.join(out)
+
 
 UNIT = {
     'items': {
@@ -577,7 +769,19 @@ UNIT = {
         'ServerContext::cancel': CANCEL,
         'on_request_handler': DISPATCH,
         'run_ls::initialize': INITIALIZE,
+        'handle_cancel': HANDLE_CANCEL,
+        'on_notification_handler': NOTIFY,
+        'ServerMessageProcessor': {'src': {'file': MP, 'kind': 'struct', 'name': 'ServerMessageProcessor'},
+                                   'rules': ['vis-pub', ('struct-fields', {'keep': ['initialization_complete', 'pending_messages', 'init_rx']})]},
+        'LspServer': {'src': {'file': LSRV, 'kind': 'struct', 'name': 'LspServer'},
+                      'rules': ['vis-pub', ('struct-fields', {'keep': ['connection', 'server_context', 'processor']})]},
+        'ServerMessageProcessor::can_process_during_init': CAN_PROCESS,
+        'ServerMessageProcessor::check_initialization_complete': CHECK_INIT,
         'ServerMessageProcessor::handle_message': HANDLE_MESSAGE,
+        'ServerMessageProcessor::process_message': PROCESS_MESSAGE,
+        'ServerMessageProcessor::process_pending_messages': PROCESS_PENDING,
+        'LspServer::wait_for_initialization': WAIT_INIT,
+        'LspServer::run': RUN,
     },
     'extra_rules': [
         ('c24-closure-contract', r'\|cancel_token\| \{',
@@ -589,14 +793,16 @@ UNIT = {
         ('c24-label-init-unwrap', r'(serde_json::from_value\(params\)\.unwrap\(\);)', r'\1 /*@C24.initialize.exactly-one-response*/',
          'label only (a comment): the precondition of this `unwrap` is the property clause — a panic here ends the server before the '
          '`initialize` request got any response'),
+        ('c24-mem-take', r'std::mem::take\(&mut self\.pending_messages\)', 'vx_mem_take(&mut self.pending_messages)',
+         '`std::mem::take(&mut V)` on a Vec -> `vx_mem_take(&mut V)` (std doc: replaces V with `Default::default()`, the empty Vec, and returns the previous value)'),
         ('c24-error-type-opaque', r'Box<dyn Error \+ Sync \+ Send>', 'BoxedError',
          '`Box<dyn Error + Sync + Send>` -> `BoxedError` in a signature: the error VALUE is opaque, only Ok / Err is under contract'),
-        ('c24-log-drop', r'\n[ \t]*error!\((?:[^()"]|"(?:[^"\\]|\\.)*"|\((?:[^()"]|"(?:[^"\\]|\\.)*")*\))*\);', '',
-         '`error!(..);` of the `log` crate dropped: it formats its arguments (Display / Debug of strings and error values) and hands the '
+        ('c24-log-drop', r'\n[ \t]*(?:error|warn)!\((?:[^()"]|"(?:[^"\\]|\\.)*"|\((?:[^()"]|"(?:[^"\\]|\\.)*")*\))*\);', '',
+         '`error!(..);` / `warn!(..);` of the `log` crate dropped: it formats its arguments (Display / Debug of strings and error values) and hands the '
          'line to the logger; no part of any claimed clause'),
     ],
     'allow': [r'external_body', r'uninterp'],
-    'min_obligations': 40,
+    'min_obligations': 60,
     'trusted': [
         'rule family async-seq = the SEQUENTIAL SCHEDULE of the async text (rules async-seq-fn / -await / -spawn are unit c36_channel\'s, loaded from its '
         'unit.py; -closure and -future-param are this unit\'s): `async fn` / `.await` are plain fns / calls; `tokio::spawn(async move { BODY })` runs BODY '
@@ -622,6 +828,16 @@ UNIT = {
         'first match wins as in the code). METHOD strings are not assumed distinct',
         'macro expansion: rule c24-macro-expand implements macro_rules transcription for the single-rule, one-level-repetition shape of dispatch_request! '
         '(see its doc string); it is not rustc\'s expander. Cross-check: the END-TO-END replay (replay/c24) observes the same behaviour on the compiled server',
+        'ghost logs (specification only): `st.recv` = every message AsyncConnection::recv handed to the main loop (appended by the shim), `st.handled` = '
+        'every message handed to handle_message (appended by ONE ghost statement inserted at the top of its body, overlay `body_first`); the queueing '
+        'clauses relate the two and `pending_messages`',
+        'tokio::time::timeout(50 ms, recv()) in the sequential form `timeout(d, value)`: passes the value through; Err(Elapsed) only when recv produced '
+        'nothing (tokio: UnboundedReceiver::recv is cancel safe, a timed-out recv has taken no message); oneshot::Receiver::try_recv unconstrained '
+        '(initialization may complete at any iteration, or never); std::mem::take on a Vec (rule c24-mem-take); Vec::push / clear / into_iter: vstd',
+        'notification handlers (on_did_change_text_document, ...) are opaque shims WITHOUT the ghost state: they are assumed to hand no RESPONSE to the '
+        'connection (they publish notifications / send requests through ClientProxy); C24.notification.sends-no-response is about the dispatcher itself',
+        'methods of impl ServerMessageProcessor / impl LspServer that are not under contract here (new, and anything added later) are generated shims '
+        'with arbitrary effect on what their parameters reach and none on the ghost state (a method that SENDS something would need a contract)',
         'AsyncConnection::handle_shutdown is a SHIM in handle_message (contract written from its text: nothing sent and Ok(false) unless the method is '
         '`shutdown`; otherwise one new_ok response for req.id and Ok(true) / Err); ServerContext::close, on_notification_handler, on_response_handler: opaque',
         'initialize slice: serde_json::json!(..) and format!(..) values are opaque (rules c24-json-opaque / c24-format-opaque); server_capabilities(..) is an opaque shim',
@@ -633,9 +849,12 @@ UNIT = {
         'first in `cancellations`), back-pressure; the transport (reader / writer threads, framing, flushing)',
         'a handler that panics: its task dies without a response for that id (C25 / C12); the `None` (InternalError) branch of `task` is proved but is '
         'unreachable from the dispatcher (its closure always returns Some)',
-        'notifications (on_notification_handler, incl. routing of `$/cancelRequest` to ServerContext::cancel) and client responses (on_response_handler)',
-        'the main loop around handle_message (LspServer::run / wait_for_initialization / process_pending_messages): by reading, `?` on an Err of '
-        'handle_message ends `run`, hence the server; Ok(false) continues; requests that arrive during initialization are queued and dispatched afterwards',
+        'what the notification HANDLERS do (document sync, diagnostics), client responses (on_response_handler: opaque, may return Err, which ends `run`)',
+        'an in-flight request cancelled while it runs, observed on the real schedule (two responses from one task would need the task body to be '
+        'racing with itself; the sequential `task` sends exactly one by C24.task.exactly-one-send): covered by the replay only; a `ResponseGuard`-style '
+        'drop guard (seeded C24_2) introduces a struct with a closure field and a Drop impl — outside the unit: UNDECIDED there, FOUND by replay/c24',
+        '`run` when it ends with Err (the server dies: by C24.dispatch.keeps-serving / C24.notification.keeps-serving / C24.loop.* only an Err of '
+        'handle_shutdown, on_response_handler or check_initialization_complete can do that); main_loop (spawns initialized_handler), LspServer::new',
         'AsyncConnection::handle_shutdown\'s own text (tokio::time::timeout, match guards, boxed ExitError): shimmed, see trusted',
         'run_ls outside the handshake slice (transport selection, main_loop, threads.join)',
     ],
@@ -647,6 +866,11 @@ UNIT = {
         'ServerContext::cancel: sends nothing, forgets nothing; ServerContext::send: exactly the given response',
         'run_ls handshake: every initialize id handed out by the connection is answered exactly once, in order [unrepaired tree: `from_value(params).unwrap()` '
         'panics on params that do not deserialize -> no response, server dead]',
+        'on_notification_handler(n): Ok(()) for EVERY notification (any method, malformed / absent params); log of sent messages and cancellation map unchanged',
+        'wait_for_initialization: pending_messages == old ++ deferred(received during the wait), handled == old ++ immediate(received during the wait) '
+        '(deferred / immediate = order-preserving filters by can_process_during_init; every Request is deferred)',
+        'process_pending_messages: Ok(false) ==> handled == old ++ queue (each queued message once, in order); otherwise a prefix; queue empty afterwards',
+        'run (Ok): handled_new is a prefix of immediate(R[..n1]) ++ deferred(R[..n1]) ++ R[n1..] for the received messages R (equal unless a shutdown stopped it)',
         'handle_message(Request(req)), req.method != "shutdown": Ok(false) (loop goes on) and `answered(req, ..)`; "shutdown": one response, not Ok(false)',
     ],
     'mutants': [
@@ -672,6 +896,26 @@ UNIT = {
          'expect': r'C24\.cancel\.sends-nothing'},
         {'name': 'loop-stops-after-request', 'item': 'ServerMessageProcessor::handle_message',
          'pattern': r'Ok\(false\)\s*\}\s*$', 'repl': 'Ok(true)\n}', 'expect': r'C24\.loop\.keeps-serving'},
+        # the seeded defect C24_3 reduced to its core: the sync group propagates the extraction error with `?`
+        {'name': 'malformed-notification-ends-the-loop', 'item': 'on_notification_handler',
+         'pattern': r'if let Ok\(params\) = (\$notification\.extract::<<\$sync_notif as LspNotification>::Params>\(<\$sync_notif>::METHOD\)) \{(\s*let snapshot = \$context\.snapshot\(\);\s*\$sync_handler\(snapshot, params\)\.await;)\s*\}',
+         'repl': r'let params = \1?;\2', 'expect': r'C24\.notification\.keeps-serving'},
+        {'name': 'cancel-notification-answers', 'item': 'on_notification_handler',
+         'pattern': r'handle_cancel\(\$context, params\)\.await;',
+         'repl': 'handle_cancel($context, params).await; $context.send(Response::new_err(RequestId::from(0), 0, "x".to_string()));',
+         'expect': r'C24\.notification\.sends-no-response'},
+        # the seeded defect C24_1 reduced to its core: something removes queued messages while the workspace loads
+        {'name': 'queued-request-dropped', 'item': 'LspServer::wait_for_initialization',
+         'pattern': r'self\.processor\.pending_messages\.push\(msg\);', 'repl': 'if self.processor.pending_messages.len() < 3 { self.processor.pending_messages.push(msg); }',
+         'expect': r'C24\.pending\.every-deferred-message-queued-once'},
+        {'name': 'queue-cleared-after-initialization', 'item': 'LspServer::run',
+         'pattern': r'(self\.wait_for_initialization\(\)\.await\?;)', 'repl': r'\1 self.processor.pending_messages.clear();',
+         'expect': r'C24\.pending\.every-received-message-handled-once-in-order'},
+        {'name': 'queue-not-processed', 'item': 'ServerMessageProcessor::process_pending_messages',
+         'pattern': r'(let messages = std::mem::take\(&mut self\.pending_messages\);)', 'repl': r'\1 let messages: Vec<Message> = Vec::new();',
+         'expect': r'C24\.pending\.(every-queued-request-processed-once|processed-in-order)'},
+        {'name': 'request-handled-during-initialization', 'item': 'ServerMessageProcessor::can_process_during_init',
+         'pattern': r'Message::Request\(_\) => false', 'repl': 'Message::Request(_) => true', 'expect': r'C24\.pending\.requests-are-deferred'},
     ],
     # an edit that changes NOTHING (run by hand, must verify): `return Ok(());` removed from the arms' success path. A Rust match arm never
     # falls through into the next arm (the catch-all included): control leaves the `match`, reaches the fn's final `Ok(())` and returns the
@@ -697,4 +941,5 @@ if 'loops' in INITIALIZE:
          'pattern': r'Ok\(initialization_params\) => initialize = Some\(\(id, initialization_params\)\),',
          'repl': 'Ok(initialization_params) => { let _ = connection.sender.send(Response::new_ok(id.clone(), 0u8).into()); initialize = Some((id, initialization_params)) }',
          'expect': r'C24\.initialize\.exactly-one-response'})
+HANDLE_MESSAGE['ensures'] = HANDLE_MESSAGE['ensures'].replace('HANDLED_CLAUSE', HANDLED + ' /*@C24.loop.message-handled-once*/')
 UNIT['template_text'] = _template()
